@@ -83,10 +83,6 @@ def filterL (f : Val → Option Val) (keep : Bool) (s : Status) : List Val → P
 
 def PL.filter (f : Val → Option Val) (keep : Bool) (a : PL) : PL := filterL f keep a.st a.vals
 
-def Val.items : Val → List Val
-  | .list l => l
-  | v => [v]
-
 /-- Splice a sequence of lists. -/
 def PL.join (a : PL) : PL := ⟨a.vals.flatMap Val.items, a.st⟩
 
@@ -108,15 +104,10 @@ def zipRows (k : Nat) : List PL → PL
 /-! ### Class-specific sequence functions -/
 
 /-- Pstutter: value `vᵢ` repeated `|nᵢ|` times. -/
-def stutterD (a b : PL) : PL :=
-  (PL.zipWith (fun v n => (countOf n).map fun c => .list (List.replicate c v)) a b).join
+def stutterD (a b : PL) : PL := (PL.zipWith Op2.stutRow.eval a b).join
 
 /-- Pflatten: `nᵢ` levels of list `vᵢ` removed (`n` is pulled first). -/
-def flattenD (a b : PL) : PL :=
-  (PL.zipWith (fun n v =>
-      match v with
-      | .list l => n.num?.map fun q => .list (flattenLevels q.rat (valDepth 64 v + 1) 0 [.list l])
-      | x => some (.list [x])) b a).join
+def flattenD (a b : PL) : PL := (PL.zipWith Op2.flatRow.eval b a).join
 
 /-- Pclump: consecutive groups of `nᵢ` values; a last incomplete non-empty group is kept. -/
 def clumpL (sa sb : Status) : List Val → List Val → PL
